@@ -100,6 +100,8 @@ def make_shell(mk, sh, coord_type="cartesian", normalise=True, cls=None):
     cls = cls or GeneralizedContractionShell
     coord, exps, coeffs = mk.array(sh["A"]), mk.array(sh["exps"]), mk.array(sh["coeffs"])
     if normalise:
+        if sh.get("icenter") is not None:
+            return cls(sh["l"], coord, coeffs, exps, coord_type, icenter=sh["icenter"])
         return cls(sh["l"], coord, coeffs, exps, coord_type)
     s = cls.__new__(cls)
     s._angmom = sh["l"]
@@ -107,7 +109,7 @@ def make_shell(mk, sh, coord_type="cartesian", normalise=True, cls=None):
     s._exps = exps
     s._coeffs = coeffs
     s.coord_type = coord_type
-    s._icenter = None
+    s._icenter = sh.get("icenter")
     return s
 
 
